@@ -66,7 +66,7 @@ def check_c02(ctx):
         quiet += o.get("quiet_points", 0)
         if not o["ok"]:
             if o["sig"].startswith("C02/"):
-                ctx.fail(o["sig"], o["detail"], {"filter": c["filter"], "actions": [s["act"] for s in c["steps"][1:o["bad_step"] + 1]], "initial": c["steps"][0]["cluster"]})
+                ctx.fail(o["sig"], o["detail"], vlib.replay_payload("snap", ["-in", "{in}", "-out", "{out}"], c, human={"filter": c["filter"], "actions": [s["act"] for s in c["steps"][1:o["bad_step"] + 1]], "initial": c["steps"][0]["cluster"]}))
             else:
                 ctx.notes.append("DIVERGENCE %s: %s" % (o["sig"], o["detail"][:300]))
     ctx.log("replayed %d histories on the real KubeEventsManager (fake cluster): %d quiet points compared" % (len(cases), quiet))
@@ -86,7 +86,7 @@ def check_c02(ctx):
     for t, o in zip(topos, kres):
         if not o["ok"]:
             if o["sig"].startswith("C02/"):
-                ctx.fail(o["sig"], o["detail"], {"topology": t})
+                ctx.fail(o["sig"], o["detail"], vlib.replay_payload("snap", ["-mode", "keys", "-in", "{in}", "-out", "{out}"], t, human={"topology": t}))
             else:
                 ctx.notes.append("DIVERGENCE %s: %s" % (o["sig"], o["detail"][:300]))
     ctx.log("snapshot keys: %d topologies (exhaustive) through the real loader + HookController.UpdateSnapshots" % len(topos))
